@@ -27,7 +27,7 @@ ASSUMPTIONS = ["row counts and parameter columns are compared bitwise",
                "algebra reference uses the library's own base samplers on single parameter rows (only composition is judged)",
                "random base samplers inside algebra are judged by count/pairing only",
                "domain-level grid/density sampling with at most one parameter row; ProductDomain grids not generated (NotImplemented by design)"]
-BUDGET = {"quick": {"examples": 150, "workers": 4}, "thorough": {"examples": 2500, "workers": 14}}
+BUDGET = {"quick": {"examples": 260, "workers": 4}, "thorough": {"examples": 2500, "workers": 14}}
 
 
 # ------------------------------------------------------------------ algebra specs -----------
@@ -51,7 +51,10 @@ def _base(draw, names, partner=None):
         # axis-aligned square with a perfect-square n: the library's barycentric grid is then
         # complete (other n are topped up with random points and are not deterministic)
         b["dim"] = 2
-        b["len2"] = ln
+        # dyadic side length: (n * side) / side is then exact in float32 (for 1.835 the library
+        # computes 8.9999995, truncates the square root to 2 and tops the 2x2 grid up randomly)
+        b["len"] = draw(st.sampled_from([0.5, 1.0, 1.5, 2.0, 2.5, 3.0]))
+        b["len2"] = b["len"]
         b["n"] = draw(st.sampled_from([1, 4, 9]))
     if kind == "expo":
         b["expo"] = draw(st.sampled_from([0.5, 2.0]))
@@ -63,7 +66,7 @@ ROOT_DEPTH = [3]
 
 @st.composite
 def _sexpr(draw, names, depth, partner=None):
-    if depth <= 0 or not names or len(names) < 2 or draw(st.integers(0, 9)) < 3:
+    if depth <= 0 or len(names) < 6 or draw(st.integers(0, 9)) < 3:
         return draw(_base(names, partner))
     ops = ["mul", "mul", "add", "static"] + (["append"] if partner is None and depth == ROOT_DEPTH[0] else [])
     op = draw(st.sampled_from(ops))
@@ -131,7 +134,7 @@ def _depth(e):
 
 @st.composite
 def _algebra_case(draw, tier):
-    names = ["a", "b", "c", "d", "e", "f"]
+    names = ["a", "b", "c", "d", "e", "f", "g", "h", "i", "j", "k", "l", "m", "n", "o", "r", "s"]
     ext = draw(st.sampled_from([0, 0, 1, 2, 3]))
     partner = ("p", 1) if ext and draw(st.booleans()) else None
     ROOT_DEPTH[0] = 3 if tier == "quick" else 4
